@@ -61,3 +61,18 @@ check_C13() {
   build_proxy
   wire_part wire route
 }
+
+check_C02() {
+  build_proxy
+  wire_part wire relay
+}
+
+check_C06() {
+  build_proxy
+  wire_part wire relay
+}
+
+check_C01() {
+  build_proxy
+  wire_part wire relay
+}
